@@ -20,7 +20,8 @@ import lin_ast as A
 from lin_ast import FUNCS, Q
 
 QVARS = ["q", "p", "r"]
-AGGVARS = [("t", A.T2), ("s", A.S), ("n", A.N), ("u", A.TS)]
+# (names must not collide with the prelude: `s`, `t` are gates of guppylang.std.quantum)
+AGGVARS = [("tu", A.T2), ("sv", A.S), ("n", A.N), ("u", A.TS)]
 
 
 def P(path):
@@ -692,12 +693,12 @@ def _atoms(family):
             {"k": "expr", "val": C("discard", P(p))},
             {"k": "expr", "val": C("h", P(q))},
         ]
-    s = ["s"]
+    s = ["sv"]
     return [
         {"k": "assign", "tgts": [s], "val": C("m_S")},
-        {"k": "assign", "tgts": [["s", "a"]], "val": NEW},
-        {"k": "assign", "tgts": [["s", "b"]], "val": P(["s", "a"])},
-        {"k": "expr", "val": C("discard", P(["s", "a"]))},
+        {"k": "assign", "tgts": [["sv", "a"]], "val": NEW},
+        {"k": "assign", "tgts": [["sv", "b"]], "val": P(["sv", "a"])},
+        {"k": "expr", "val": C("discard", P(["sv", "a"]))},
         {"k": "expr", "val": C("c_S", P(s))},
         {"k": "expr", "val": C("b_S", P(s))},
     ]
@@ -747,8 +748,8 @@ def enumerate_small(maxsize: int, family: str):
                 vars_ = {"q": {"ty": Q, "kind": kind}, "p": {"ty": Q, "kind": "local"}}
                 params = ["q"] if kind != "local" else []
             else:
-                vars_ = {"s": {"ty": A.S, "kind": kind}}
-                params = ["s"] if kind != "local" else []
+                vars_ = {"sv": {"ty": A.S, "kind": kind}}
+                params = ["sv"] if kind != "local" else []
             p = {"vars": vars_, "params": params, "bparams": [], "ret": "none", "rty": None, "body": A.clone(body),
                  "family": family}
             n0 = A.number(p)["nstmts"]
